@@ -32,6 +32,22 @@ claim("C02", "proof",
       "abstract interpretation of typed HIR to exact canonical forms, compared with a generated truncated-Taylor-algebra spec",
       "DESIGN.md 5.C02")
 
+claim("C07", "proof",
+      "Static proof: (L1) every operator impl and inherent method of the optional-matrix container satisfies alpha(result) == op(alpha(operands)) in every presence case; (L2) every arithmetic, chain-rule, elementary-function, power, scalar-operand and in-place operation of DualVec, Dual2Vec, HyperDualVec is discharged under all 2^k presence patterns against the same spec; (access) no code outside impl Derivative projects the presence flag. Sequences of in-place updates follow by induction (each step preserves alpha).",
+      TB,
+      "abstract interpretation with Option semantics over typed HIR + who-may-access rule on resolved field projections",
+      "DESIGN.md 5.C07")
+claim("C08", "proof",
+      "Static proof over the reals: each of the 40 operator/conversion impls generated per type (320 in total: owned/borrowed/mixed + - * /, compound assignment, scalar right operands, Neg, Inv, Sum, Product, From<F>, Zero, One, 14 FromPrimitive items, 16 FloatConst items) and the default mul_add equals the corresponding operation between dual numbers with the scalar lifted to a constant. Bit-equality of multiplicative scalar forms is NOT decided (the statement says 'to rounding').",
+      TB,
+      "abstract interpretation of typed HIR to exact canonical forms; impl table enumeration with floor 320",
+      "DESIGN.md 5.C08")
+claim("C09", "proof",
+      "Static proof over the reals: powi/powf in every decision-tree arm (n=0, 1, 2 / |n-2|<eps, general symbolic n, negative n) equal the formal derivatives of x^n in all parts; powd equals the lifting of exp(n ln x) in base and exponent; recip/sqrt/cbrt agree with the power forms; sound interval analysis shows every i32 sub-expression of powi stays in range for |n| <= 2^30 (violations only with an exact witness); float instances forward to std. Float overflow/underflow of x^(n-3) is NOT decided.",
+      TB,
+      "abstract interpretation with symbolic exponent + integer interval analysis on typed HIR",
+      "DESIGN.md 5.C09")
+
 ALL = ["C%02d" % i for i in range(1, 19)]
 for pid in ALL:
     if pid not in CHECKS:
